@@ -142,6 +142,17 @@ def recover(ctx, f, cls, node, what, committer, appenders):
         resizes = [e for e in ctx.E.primitives(f) if e.kind == 'RESIZE' and
                    any(x is e.node for x in ast.walk(body))]
         commits = [n for n, cal in ctx.E.callees(f) if cal is committer and any(x is n for x in ast.walk(body))]
+        if commits and resizes:
+            # the handler commits *before* it cuts the file back: the committer must not be able to refuse
+            raises = [n for n in own_nodes(committer.node) if isinstance(n, ast.Raise)]
+            first_commit_before = any(must_precede(f, r.node, commits) for r in resizes)
+            if raises and first_commit_before:
+                ctx.bad('R-RECOVER', 'D1', f, raises[0], construct + '::committer-raises', inst,
+                        detail=f'{committer.qualname} (called by the handler before the file is cut back) contains an explicit '
+                               f'`{norm(raises[0])[:60]}`: a check that fires exactly when a partial chunk is in the file '
+                               f'aborts the recovery — neither the description nor the truncation happens')
+                ok_all = False
+                continue
         if not resizes:
             ctx.bad('R-RECOVER', 'D1', f, h, construct + '::resize', inst,
                     detail='handler does not cut the data file back to the committed size: a partial chunk remains')
